@@ -58,12 +58,63 @@ def _base_of(fn, o, operand):
     return set(o.alias[l]) | {l}
 
 
+STACK_CLASS = ("translator-stack", "\"BUG: stack underflow\": the translator pushes every operand this hook pops")
+
+
+def _panic_message(fn, b):
+    """the literal of the panic!() whose panic_fmt call is block b: the format pieces are built in the blocks just before"""
+    out = []
+    seen = set()
+    cur = b
+    for _ in range(4):
+        if cur in seen:
+            break
+        seen.add(cur)
+        blk = fn.blocks[cur]
+        ops = []
+        for st in blk["stmts"]:
+            if st[0] == "assign":
+                ops += st[2].get("ops", [])
+        if blk["term"]["k"] == "call":
+            ops += blk["term"]["args"]
+        for op in ops:
+            if "str" in op:
+                out.append(op["str"])
+            for c in op.get("promoted", []) or []:
+                if "str" in c:
+                    out.append(c["str"])
+        if out:
+            break
+        ps = [p for p in cfg.preds(fn)[cur] if not fn.is_cleanup(p)]
+        if len(ps) != 1:
+            break
+        cur = ps[0]
+    return out[0] if out else ""
+
+
 def discharge_local(F, fn, site, o, lin, facts_cache):
     """returns (class, reason) when a recognised guard idiom discharges the site, else None"""
     kind, detail, b, _, msg = site
     t = fn.term(b)
     if kind == "assert" and detail.startswith("Overflow(Add usize") or detail.startswith("Overflow(Mul usize"):
         return "usize-counter", "usize length / counter arithmetic is bounded by the address space"
+    if kind == "panic" and fn.file in ("src/build/opcode/runtime.rs", "src/build/opcode/vm.rs"):
+        # the hooks' own "this cannot happen" for an empty operand stack, wherever in the hook (or a helper of it) it is written
+        m = _panic_message(fn, b)
+        if m.startswith("BUG: ") and "translator emitted wrong opcode sequence" in m:
+            return STACK_CLASS
+    if kind == "assert" and detail.startswith("Overflow(Sub usize") and fn.file.startswith("src/ast/printer"):
+        # `curr_indent -= indent_size` is reached only after the matching `+=`: decided on the paths (the flag that remembers
+        # the indent is followed), wherever the printer's code is split into methods
+        fields = lambda op, bb: {l[1] for l in o.at(op, bb) if l[0] == "field"}
+        if "curr_indent" in fields(t["ops"][0], b) and "indent_size" in fields(t["ops"][1], b):
+            adds = set()
+            for bb, j, pl, rv, m in fn.assigns():
+                if rv["k"] == "bin" and rv["op"].startswith("Add") and len(rv["ops"]) == 2 and \
+                        "curr_indent" in fields(rv["ops"][0], bb) and "indent_size" in fields(rv["ops"][1], bb):
+                    adds.add(bb)
+            if adds and b not in cfg.reachable_ps(fn, 0, removed=adds):
+                return "balanced", "curr_indent -= indent_size only on paths that did the matching += (path-sensitive on the flag)"
     if kind == "assert" and detail.startswith("Overflow(Sub usize"):
         # translator patch arithmetic: minuend and subtrahend are linear forms of OpsMap::len snapshots
         a = lin.of_operand(t["ops"][0])
@@ -144,6 +195,21 @@ def discharge_local(F, fn, site, o, lin, facts_cache):
                     if ct2["dest"]["l"] == l and callee(ct2).endswith("::is_empty") and not pol and _base_of(fn, o, ct2["args"][0]) & vec:
                         # nothing may shrink the vector between the test and the use
                         return "guarded-unwrap", "dominated by the false edge of is_empty() on the same vector"
+                # `v.len() == 1` (or >= 1, > 0) on the same vector
+                for bb, j, pl, rv, m in fn.assigns():
+                    if pl["l"] != l or rv["k"] != "bin" or rv["op"] not in ("Eq", "Ge", "Gt", "Ne"):
+                        continue
+                    kc = _const_int(fn, rv["ops"][1])
+                    ll = op_local(rv["ops"][0])
+                    if kc is None or ll is None:
+                        continue
+                    lens = [ct3 for cb3, ct3 in fn.calls() if ct3["dest"]["l"] in util.copies_of(fn, ll, allow_not=False) or ct3["dest"]["l"] == ll]
+                    lens = [ct3 for ct3 in lens if callee(ct3).endswith("::len") and ct3["args"] and _base_of(fn, o, ct3["args"][0]) & vec]
+                    if not lens:
+                        continue
+                    if (rv["op"] == "Eq" and pol and kc >= 1) or (rv["op"] == "Ge" and pol and kc >= 1) or (rv["op"] == "Gt" and pol and kc >= 0) or \
+                            (rv["op"] == "Ne" and not pol and kc >= 1):
+                        return "guarded-unwrap", "dominated by a test that the same vector has at least one element (len() %s %d)" % (rv["op"], kc)
         return None
     if kind == "precond" and detail.endswith("Index<I>>::index") and "Vec" in detail:
         # v[i as usize] dominated by `i < v.len() as i64 && i >= 0`
